@@ -25,6 +25,12 @@ CHECKS = {
              ref="§5 C20", note="asyncio streams replaced by a fake reader implementing read/readexactly per the asyncio contract; <=2 ids, 2 senders + 1 receiver; real TCP outside. "),
  "C01": dict(text="LMDB residual matcher: the real code generator (kv.compile_match_from_query, fed by the real planner) run on holes and its generated predicate executed symbolically against reference NIP-01 matching for 8 filter shapes, all values symbolic (ints) or solver-selected (strings); plus the real repr()-based compilation for 13 hostile names/values (quotes, backslash, NUL, injection attempts).",
              ref="§5 C01", note="hole technique (DESIGN 2.5): repr() literals of str/int/tuple are assumed to evaluate back to the value and that assumption is validated by ob_literal_roundtrip on the hostile pool. SQL side: see evidence for what is currently included. "),
+ "C08": dict(text="LMDB: store {e0, bystander} + arriving kind-5 event with symbolic authors, timestamps (older/equal/newer) and e/p tags by selector (own, foreign, unknown, non-hex, bare, upper-case ids): removed set within the must/may sets of refs/effects.py, everything else and index coherence untouched.",
+             ref="§5 C08", note="LMDB via the contract model (cursor tracking as liblmdb); SQL side: see evidence. "),
+ "C09": dict(text="LMDB: store {e0} + arriving e1 over kinds {0,3,10000,19999,30000,39999} vs neighbours {1,4,9999,20000,40000}, d tags {absent,a,ab,bare,empty,unicode}, symbolic authors and timestamps (in-order, out-of-order, equal): older same-address versions removed, nothing else.",
+             ref="§5 C09", note="LMDB via the contract model; histories of 2 events (3 in C10); SQL side: see evidence. "),
+ "C10": dict(text="LMDB key set == tombstone + primary + index keys (reference layout) of the stored events after 20 families of histories (add, duplicate add, delete stored/unknown id, replaceable, parameterised replaceable, kind-5, ephemeral) with symbolic authors/timestamps and tag shapes by selector; write/clear symmetry for symbolic kind/created_at.",
+             ref="§5 C10", note="LMDB via the contract model stubs/lmdb; msgpack identity stub; FTS index (whoosh) absent and outside. "),
 }
 NA = {}
 def main():
